@@ -132,6 +132,17 @@ func (e *authEnv) addr(n string) string {
 
 func (e *authEnv) acc(n string) sdk.AccAddress { return sdk.MustAccAddressFromBech32(e.addr(n)) }
 
+// addrSp: the address of n as a message field may spell it — bech32 is valid all lower-case or ALL UPPER-CASE (mixed case is
+// not), and both decode to the same account: an authorisation or module-account guard must not depend on the spelling
+func (e *authEnv) addrSp(n string) string {
+	a := e.addr(n)
+	if a != "" && a != badAddr && e.r.Intn(5) == 0 {
+		e.o.Count("address-spelling.upper-case")
+		return strings.ToUpper(a)
+	}
+	return a
+}
+
 func (e *authEnv) nm(realAddr string) string {
 	if realAddr == "" {
 		return "-"
@@ -435,17 +446,17 @@ func (e *authEnv) tfSend(w *tfWorld, kind string, sender string, canon string, c
 		switch kind {
 		case "mint":
 			return func(ctx sdk.Context) error {
-				_, err := e.tfSrv.Mint(ctx, &tftypes.MsgMint{Sender: S, Amount: amt(args[0]), MintToAddress: e.addr(args[1])})
+				_, err := e.tfSrv.Mint(ctx, &tftypes.MsgMint{Sender: S, Amount: amt(args[0]), MintToAddress: e.addrSp(args[1])})
 				return err
 			}
 		case "burn":
 			return func(ctx sdk.Context) error {
-				_, err := e.tfSrv.Burn(ctx, &tftypes.MsgBurn{Sender: S, Amount: amt(args[0]), BurnFromAddress: e.addr(args[1])})
+				_, err := e.tfSrv.Burn(ctx, &tftypes.MsgBurn{Sender: S, Amount: amt(args[0]), BurnFromAddress: e.addrSp(args[1])})
 				return err
 			}
 		case "force":
 			return func(ctx sdk.Context) error {
-				_, err := e.tfSrv.ForceTransfer(ctx, &tftypes.MsgForceTransfer{Sender: S, Amount: amt(args[0]), TransferFromAddress: e.addr(args[1]), TransferToAddress: e.addr(args[2])})
+				_, err := e.tfSrv.ForceTransfer(ctx, &tftypes.MsgForceTransfer{Sender: S, Amount: amt(args[0]), TransferFromAddress: e.addrSp(args[1]), TransferToAddress: e.addrSp(args[2])})
 				return err
 			}
 		case "admin":
